@@ -87,9 +87,9 @@ Fixpoint spans_ordered (lo : nat) (spans : list (nat * nat)) (hi : nat) : Prop :
 Definition covered (spans : list (nat * nat)) (i : nat) : Prop :=
   exists s e, In (s, e) spans /\ s <= i < e.
 
-(* where position i of the source (outside all spans) ends up in [splice t 0 spans] *)
-Fixpoint out_pos (spans : list (nat * nat)) (i : nat) : nat :=
+(* where position i of the source (not inside a span, i >= lo) ends up in [splice t lo spans] *)
+Fixpoint out_index (lo : nat) (spans : list (nat * nat)) (i : nat) : nat :=
   match spans with
-  | [] => i
-  | (s, e) :: r => if e <=? i then out_pos r i - (e - s) + length marker else i
+  | [] => i - lo
+  | (s, e) :: r => if i <? s then i - lo else (s - lo) + length marker + out_index e r i
   end.
